@@ -205,6 +205,61 @@ func TestC14Registry(t *testing.T) {
 				m.logf("iterate")
 				m.iterateCheck(t)
 			},
+			"iterateDeleteWithPartners": func(t *rapid.T) {
+				// the shutdown sweep when an OnClose closes another connection of the loop
+				// (a relay closing its partner): entries other than the visited one disappear
+				// while the iteration is under way
+				n := len(m.order)
+				if n == 0 {
+					t.Skip("empty")
+				}
+				picks := rapid.SliceOfN(rapid.IntRange(0, 1<<20), n, n).Draw(t, "partners")
+				m.logf("iterate+delete all, some visits also delete another live entry (%d)", n)
+				live := append([]*conn(nil), m.order...)
+				gone := map[*conn]bool{}
+				visit := 0
+				m.cm.iterate(func(c *conn) bool {
+					if gone[c] {
+						// removed by an earlier visit of this very sweep: the matrix may still show it (its row
+						// was dropped as a whole); the property speaks of live connections only and the
+						// framework's close ignores a connection that is not registered any more
+						return true
+					}
+					if m.model[c.fd] != c {
+						m.fail(t, "reg-iter-ghost", "iterate visited fd %d which was not live when the sweep began", c.fd)
+					}
+					kill := func(x *conn) {
+						m.cm.delConn(x)
+						delete(m.model, x.fd)
+						m.dead = append(m.dead, x.fd)
+						gone[x] = true
+					}
+					kill(c)
+					if p := picks[visit%len(picks)]; p%3 == 0 {
+						var rest []*conn
+						for _, x := range live {
+							if !gone[x] {
+								rest = append(rest, x)
+							}
+						}
+						if len(rest) > 0 {
+							kill(rest[(p/3)%len(rest)])
+						}
+					}
+					visit++
+					return true
+				})
+				if len(m.model) != 0 {
+					m.fail(t, "reg-iter-miss", "a sweep in which visits also removed other entries visited %d connections and left %d live ones unvisited", visit, len(m.model))
+				}
+				if len(m.dead) > 64 {
+					m.dead = m.dead[len(m.dead)-64:]
+				}
+				m.order = nil
+				if n := m.cm.loadCount(); n != 0 {
+					m.fail(t, "reg-count", "registry reports %d connections after all were removed", n)
+				}
+			},
 			"iterateDeleteAll": func(t *rapid.T) {
 				m.logf("iterate+delete all (%d)", len(m.order))
 				visited := 0
